@@ -2,5 +2,8 @@ import os
 import sys
 
 os.environ.setdefault("APT_MIRROR_LOGLEVEL", "critical")
-if "/repo" not in sys.path:
-    sys.path.insert(0, "/repo")
+# the tree under test: /repo (always, for the registered commands); VERIF_REPO lets tools/seed_wt.sh point the same
+# harness at a scratch worktree so that several seeded changes can be tried in parallel without touching /repo
+REPO = os.environ.get("VERIF_REPO", "/repo")
+if REPO not in sys.path:
+    sys.path.insert(0, REPO)
